@@ -32,13 +32,13 @@ NSTEPS = 5
 
 def bounds(tier, seed):
     return dict(release=["discrete", "continuous"], column=["none", "int", "time"], ibmvar=[False, True], diffusion=[0.0, 2.5, 4], subgrid=[None, [2, 9, 1, 7]], advection=["EF", "RK4"],
-                grid=["explicit", "omitted-plain", "omitted-wildcard"], optional=["omitted", "empty"], reference=[False, True], dt=["int", "list", "iso"])
+                grid=["explicit", "explicit-plugin-nomodule", "omitted-plain", "omitted-wildcard"], optional=["omitted", "empty"], reference=[False, True], dt=["int", "list", "iso"])
 
 
 def cases(tier, seed):
     out = []
     k = seed
-    for rel, col, ibm, diff, grid in itertools.product(["discrete", "continuous"], ["none", "int", "time"], [False, True], [0.0, 2.5, 4], ["explicit", "omitted-plain", "omitted-wildcard"]):
+    for rel, col, ibm, diff, grid in itertools.product(["discrete", "continuous"], ["none", "int", "time"], [False, True], [0.0, 2.5, 4], ["explicit", "explicit-plugin-nomodule", "omitted-plain", "omitted-wildcard"]):
         others = list(itertools.product([None, [2, 9, 1, 7]], ["EF", "RK4"], ["omitted", "empty"], [False, True], ["int", "list", "iso"]))
         if tier == "quick":
             k += 1
@@ -80,7 +80,7 @@ def dt_spelling(kind):
 
 
 def forcing_name(case, d):
-    return str(d / ("f_*.nc" if case["grid"] == "omitted-wildcard" else "single.nc" if case["grid"] == "omitted-plain" else "f_*.nc"))
+    return str(d / ("single.nc" if case["grid"] == "omitted-plain" else "f_*.nc"))
 
 
 def render_v2(case, d, cols, outname):
@@ -89,9 +89,12 @@ def render_v2(case, d, cols, outname):
     c["time"] = dict(start=world.iso(S0), stop=world.iso(S0 + NSTEPS * DT), dt=dt_spelling(case["dt"]))
     if case["reference"]:
         c["time"]["reference"] = world.iso(S0 - 86400)
-    c["forcing"] = dict(module="ladim.ROMS", filename=forcing_name(case, d))
-    if case["grid"] == "explicit":
+    plugin_mod = case["grid"] == "explicit-plugin-nomodule"
+    c["forcing"] = dict(module=drive.plug("rec_modules.py") if plugin_mod else "ladim.ROMS", filename=forcing_name(case, d))
+    if case["grid"] in ("explicit", "explicit-plugin-nomodule"):
         c["grid"] = dict(module="ladim.ROMS", filename=str(d / "f_000.nc"))
+        if plugin_mod:
+            del c["grid"]["module"]  # a grid section without module: the grid comes from the forcing module
         if case["subgrid"]:
             c["grid"]["subgrid"] = case["subgrid"]
     elif case["subgrid"]:
@@ -141,8 +144,8 @@ def render_v1(case, d, cols, outname):
     if case["reference"]:
         c["time_control"]["reference_time"] = world.iso(S0 - 86400)
     c["files"] = dict(particle_release_file=str(d / "r.rls"), output_file=str(d / outname))
-    c["gridforce"] = dict(module="ladim.ROMS", input_file=forcing_name(case, d))
-    if case["grid"] == "explicit":
+    c["gridforce"] = dict(module=drive.plug("rec_modules.py") if case["grid"] == "explicit-plugin-nomodule" else "ladim.ROMS", input_file=forcing_name(case, d))
+    if case["grid"] in ("explicit", "explicit-plugin-nomodule"):
         c["gridforce"]["gridfile"] = str(d / "f_000.nc")
     if case["subgrid"]:
         c["gridforce"]["subgrid"] = case["subgrid"]
@@ -163,8 +166,9 @@ def render_v1(case, d, cols, outname):
         c["ibm"] = dict(ibm_module=drive.plug("sibm.py"), variables=["age"], age=True)
     inst = ["pid", "X", "Y", "Z"] + (["age"] if case["ibmvar"] else [])
     ov = dict(outper=[10, "m"], format="NETCDF4", instance=inst, particle=pvars)
+    shared = dict(ncformat="f8", long_name="horizontal position")  # X and Y share ONE definition: yaml.safe_dump writes an anchor and an alias
     for v in inst + pvars:
-        ov[v] = dict(ncformat=OUTFMT[v][0], long_name=OUTFMT[v][1])
+        ov[v] = shared if v in ("X", "Y") else dict(ncformat=OUTFMT[v][0], long_name=OUTFMT[v][1])
         if v == "release_time":
             ov[v]["units"] = "seconds since reference_time"
     c["output_variables"] = ov
@@ -253,8 +257,29 @@ def run_case(case):
     files["toml2"] = d / "c_toml2.toml"
     (d / "c_yaml1.yaml").write_text(yaml.safe_dump(render_v1(case, d, cols, "out_yaml1.nc"), sort_keys=False))
     files["yaml1"] = d / "c_yaml1.yaml"
+    # adversarial call history: another set-up (different grid and forcing files, optional sections omitted) is configured first in
+    # the same process, in both v2 spellings; nothing of it may leak into the runs below
+    try:
+        from ladim.configure import configure as _configure
+
+        dec = world.World(imax=9, jmax=8, N=2, h=25.0, dx=500.0)
+        dec.write_file(d / "decoy_0.nc", [dict(t=S0 - DT, **dec.zeros()), dict(t=S0 + 9 * DT, **dec.zeros())])
+        dconf = dict(version=2, time=dict(start=world.iso(S0), stop=world.iso(S0 + 2 * DT), dt=DT), forcing=dict(module="ladim.ROMS", filename=str(d / "decoy_*.nc")),
+                     tracker=dict(advection="EF"), release=dict(release_file=str(d / "r.rls"), names=cols),
+                     output=dict(filename=str(d / "decoy_out.nc"), output_period=DT, instance_variables=dict(pid=dict(encoding=dict(datatype="i4"), attributes=dict(long_name="pid")))))
+        (d / "decoy.yaml").write_text(yaml.safe_dump(dconf, sort_keys=False))
+        (d / "decoy.toml").write_text(to_toml(dconf))
+        _configure(str(d / "decoy.yaml"))
+        _configure(str(d / "decoy.toml"))
+    except BaseException as e:
+        bad("crash:decoy", f"configure() of a plain valid v2 file failed: {e!r}")
     results, configs = {}, {}
+    import sys as _sys
+    import types as _types
+
+    _reg = _sys.modules.setdefault("verif_reclog", _types.ModuleType("verif_reclog"))
     for name, path in files.items():
+        _reg.events = []
         try:
             if case["diffusion"] > 0:
                 _, cfg = drive.run_config_file(path, rng=Scripted())
@@ -265,6 +290,10 @@ def run_case(case):
                 drive.run_main_file(path)
             configs[name] = norm_config(cfg)
             results[name] = world.read_output([d / f"out_{name}.nc"])
+            if case["grid"] == "explicit-plugin-nomodule":
+                mods_ran = {e["mod"] for e in _reg.events if e.get("meth") == "init"}
+                if not {"grid", "forcing"} <= mods_ran:
+                    bad(f"plugin-module:{name}", f"{name} spelling: the plug-in module given for the forcing (and so for the grid) did not provide both: initialised {sorted(mods_ran)}")
         except drive.RunFailed as e:
             bad(f"crash:{name}", f"{name} spelling: {e}")
         except SystemExit as e:
